@@ -12,6 +12,14 @@ use serde::{Deserialize, Serialize};
 use serde_json::json;
 
 const PLENS: [usize; 4] = [3, 0, 7, 2];
+const EMPTY: [usize; 4] = [0, 0, 0, 0];
+fn plens_of(variant: u8) -> &'static [usize; 4] {
+    if variant & 4 != 0 {
+        &EMPTY
+    } else {
+        &PLENS
+    }
+}
 
 #[derive(Clone, Debug, Serialize, Deserialize)]
 pub struct Case {
@@ -33,7 +41,10 @@ fn base_cfg(p: &Proto, eph: u8) -> Config {
 
 /// messages of a parallel session (same statics and psks, different ephemerals)
 fn parallel_messages(p: &Proto) -> Vec<Vec<u8>> {
-    let e = Exec::run(&base_cfg(p, 60), &sess::handshake_ops(p, &PLENS));
+    parallel_messages_with(p, &PLENS)
+}
+fn parallel_messages_with(p: &Proto, plens: &[usize; 4]) -> Vec<Vec<u8>> {
+    let e = Exec::run(&base_cfg(p, 60), &sess::handshake_ops(p, plens));
     let mut v = vec![];
     for k in 0..p.n_msgs() {
         let w = sess::writer(k);
@@ -49,10 +60,11 @@ fn parallel_messages(p: &Proto) -> Vec<Vec<u8>> {
 pub fn run_case(c: &Case) -> (Vec<(String, String)>, bool) {
     let p = Proto::parse(&c.name).expect("name");
     let mut cfg = base_cfg(&p, 0);
-    if c.variant != 0 {
+    let plens = plens_of(c.variant);
+    if c.variant & 3 != 0 {
         cfg.backend = [crate::seam::Backend::Ring, crate::seam::Backend::Ring];
     }
-    let rcap = if c.variant == 1 { Cap::NeedPlus(0) } else { Cap::Roomy };
+    let rcap = if c.variant & 3 == 1 { Cap::NeedPlus(0) } else { Cap::Roomy };
     let mut e = Exec::new(&cfg);
     if e.build_err.is_some() {
         return (vec![], false);
@@ -63,7 +75,7 @@ pub fn run_case(c: &Case) -> (Vec<(String, String)>, bool) {
     for k in 0..p.n_msgs() {
         let w = sess::writer(k);
         let r = w.peer();
-        e.step(&Op::HsWrite { side: w, plen: PLENS[k], cap: Cap::Roomy });
+        e.step(&Op::HsWrite { side: w, plen: plens[k], cap: Cap::Roomy });
         let wrote = e.steps.last().unwrap().real.is_ok();
         any_err |= !wrote;
         let alts: Vec<Msg> = c.alts.iter().filter(|(i, _)| *i == k).map(|(_, m)| m.clone()).collect();
@@ -78,7 +90,7 @@ pub fn run_case(c: &Case) -> (Vec<(String, String)>, bool) {
         }
         // deliver the altered copies one after the other until one is accepted
         let (genuine, _) = e.resolve_msg(&Msg::Last(w));
-        let fields = field_map(&p, k, PLENS[k]);
+        let fields = field_map(&p, k, plens[k]);
         let tail_encrypted = fields.last().map_or(false, |f| f.encrypted);
         for (attempt, m) in alts.iter().enumerate() {
             let (altered, _) = e.resolve_msg(m);
@@ -142,9 +154,12 @@ fn alt_kind(m: &Msg) -> &'static str {
 }
 
 fn alterations(p: &Proto, k: usize, bit_granular: bool, par: &[Vec<u8>]) -> Vec<Msg> {
+    alterations_with(p, k, bit_granular, par, &PLENS)
+}
+fn alterations_with(p: &Proto, k: usize, bit_granular: bool, par: &[Vec<u8>], plens: &[usize; 4]) -> Vec<Msg> {
     let w = sess::writer(k);
     let g = Msg::Last(w);
-    let len: usize = field_map(p, k, PLENS[k]).iter().map(|f| f.len).sum();
+    let len: usize = field_map(p, k, plens[k]).iter().map(|f| f.len).sum();
     let a = |x: Alter| Msg::Altered(Box::new(g.clone()), x);
     let mut v = vec![];
     if bit_granular {
@@ -166,7 +181,7 @@ fn alterations(p: &Proto, k: usize, bit_granular: bool, par: &[Vec<u8>]) -> Vec<
     v.push(a(Alter::Extend(1, 0)));
     v.push(a(Alter::Extend(16, 0xaa)));
     // multi-byte edits: two and three bits in different fields / bytes at once
-    let fm = field_map(p, k, PLENS[k]);
+    let fm = field_map(p, k, plens[k]);
     let marks: Vec<usize> = fm.iter().flat_map(|f| [f.start, f.start + f.len.saturating_sub(1)]).filter(|x| *x < len).collect();
     for (i, m1) in marks.iter().enumerate() {
         for m2 in marks.iter().skip(i + 1) {
@@ -194,7 +209,7 @@ fn alterations(p: &Proto, k: usize, bit_granular: bool, par: &[Vec<u8>]) -> Vec<
 pub fn run(tier: Tier) -> i32 {
     let ctx = Ctx::new("C03", tier, "fault_enumeration");
     let quick = ctx.quick();
-    ctx.set_rule("case = (handshake name, message index, alteration of that message: single-bit flips (every bit on the base patterns of 2 suites, one bit per byte + key top bits elsewhere), every truncation length, extension by 1 and 16, replacement by each message of a parallel session / earlier message of this session / zeros); the altered message is delivered instead of the genuine one and the session continues honestly; default backend with large buffers, and (base patterns) the ring-preferring backend with exactly payload-sized and with large payload buffers. Oracle: (a) never both finished without an error; (b) if the altered bytes intersect a field the reference field map marks encrypted, or the length of an encrypted tail changed, the receiving read itself must return Err. Bound 2: two altered messages, or two altered copies of the same message (the second after the first was rejected). non-trivial = the delivered bytes differed from the genuine message");
+    ctx.set_rule("case = (handshake name, message index, alteration of that message: single-bit flips (every bit on the base patterns of 2 suites, one bit per byte + key top bits elsewhere), every truncation length, extension by 1 and 16, replacement by each message of a parallel session / earlier message of this session / zeros); the altered message is delivered instead of the genuine one and the session continues honestly; default backend with large buffers, and (base patterns) the ring-preferring backend with exactly payload-sized and with large payload buffers; payloads of 3/0/7/2 bytes, and (base patterns, every cipher) all payloads empty. Oracle: (a) never both finished without an error; (b) if the altered bytes intersect a field the reference field map marks encrypted, or the length of an encrypted tail changed, the receiving read itself must return Err. Bound 2: two altered messages, or two altered copies of the same message (the second after the first was rejected). non-trivial = the delivered bytes differed from the genuine message");
     let mut jobs: Vec<(Proto, bool)> = vec![];
     for p in patterns::all_protos_for_suite(DhAlg::X25519, CipherAlg::ChaChaPoly, HashAlg::Blake2s) {
         jobs.push((p, false));
@@ -243,6 +258,33 @@ pub fn run(tier: Tier) -> i32 {
         .collect();
     ctx.count("ring_backend_cases", ring_cases.len() as u64);
     cases.extend(ring_cases);
+    // every handshake payload empty: each encrypted payload is a bare 16-byte tag ("nothing to decrypt" must not
+    // become "nothing to verify"); base patterns, every cipher, default and ring-preferring backend
+    let empty_cases: Vec<Case> = patterns::base_patterns()
+        .par_iter()
+        .enumerate()
+        .flat_map(|(i, b)| {
+            let mut v = vec![];
+            for (ci, c) in [CipherAlg::ChaChaPoly, CipherAlg::AesGcm, CipherAlg::XChaChaPoly].into_iter().enumerate() {
+                if quick && (i + ci) % 3 != 0 {
+                    continue;
+                }
+                let p = Proto::new(b, &[], DhAlg::X25519, c, HashAlg::Blake2s).unwrap();
+                let par = parallel_messages_with(&p, &EMPTY);
+                for k in 0..p.n_msgs() {
+                    for m in alterations_with(&p, k, false, &par, &EMPTY) {
+                        v.push(Case { name: p.name.clone(), alts: vec![(k, m.clone())], variant: 4 });
+                        if c != CipherAlg::XChaChaPoly {
+                            v.push(Case { name: p.name.clone(), alts: vec![(k, m)], variant: 4 + 2 });
+                        }
+                    }
+                }
+            }
+            v
+        })
+        .collect();
+    ctx.count("all_empty_payload_cases", empty_cases.len() as u64);
+    cases.extend(empty_cases);
     ctx.count("bound1_cases", cases.len() as u64);
     let eval = |c: &Case| {
         let (v, nontrivial) = run_case(c);
